@@ -44,9 +44,8 @@ JOBS = [
     buf('reader_has', 'h_reader_has', ['carquet_buffer_reader_has', 'carquet_buffer_reader_remaining',
                                         'carquet_buffer_reader_peek'], props=['C04']),
     buf('reader_read', 'h_reader_read', ['carquet_buffer_reader_read', 'carquet_buffer_reader_has'], props=['C04', 'C19'],
-        note='FINDING (low): reader over NULL data (empty buffer), size 0 => memcpy(dest, NULL + 0, 0): NULL+0 and a NULL '
-             'memcpy argument are formally UB (UBSan: applying zero offset to null pointer, buffer.c:296). '
-             'Native demo /tmp/buffer/native/reader_read_null0.c. Everything else is proved by c19_buffer_reader_read_nz.'),
+        note='was a finding (NULL + 0 / memcpy(dest, NULL, 0) on an empty cursor with size 0), fixed upstream by e32ff94; '
+             'ok on the fixed tree, fails (memcpy src readable) with the fix reverted'),
     buf('reader_read_nz', 'h_reader_read', ['carquet_buffer_reader_read', 'carquet_buffer_reader_has'], props=['C04', 'C19'],
         defines=['CQV_NO_NULL_ZERO_READ=1'], level='proof',
         note='domain: every cursor state and length except (data == NULL and length 0); see c19_buffer_reader_read'),
@@ -56,6 +55,15 @@ JOBS = [
         defines=['CQV_WHICH=%d' % w], props=['C04', 'C19'])
     for w, t in enumerate(['byte', 'u16_le', 'u32_le', 'u64_le', 'f32_le', 'f64_le'])
 ]
+
+# ---- enforce jobs of the real contracts in contracts/buffer.ovl (usable by other families via replace) ----
+CHECKS_NOLEAK = [c for c in CHECKS if c != '--memory-leak-check']   # is_fresh objects are never freed
+for _f in ('reserve', 'append', 'advance'):
+    JOBS.append(buf('contract_' + _f, 'h_contract_' + _f, ['carquet_buffer_' + _f, 'ensure_capacity', 'next_power_of_two'],
+                    enforce='carquet_buffer_' + _f, checks=CHECKS_NOLEAK))
+JOBS.append(buf('contract_use', 'h_contract_use', ['carquet_buffer_append_u32_le', 'carquet_buffer_append_u64_le'],
+                replace=['carquet_buffer_append'], checks=CHECKS_NOLEAK,
+                note='smoke test that the append contract can be used through replace (two consecutive call sites)'))
 
 # ---- arena.c: block list of length <= 3 (bounded level), sizes / fill levels / alignment symbolic ----
 TRUST_ARENA = ['harness/C19/arena.c: memcpy/memset models (ranges accessible; one arbitrary ghost byte kept, rest havocked)']
@@ -95,10 +103,12 @@ JOBS += (
     + split('alloc_aligned_nofail', 'h_alloc_aligned', AA, cbmc_flags=['--no-malloc-may-fail'], defines=['CQV_NOFAIL=1'])
     + split('alloc', 'h_alloc', AA + ['carquet_arena_alloc'])
     + [
-        arena('calloc', 'h_calloc', ['carquet_arena_calloc', 'carquet_arena_alloc'], timeout=300,
-              **dict(CALLER, level='bounded', bound='count <= 65535 and element size <= 65535 (64-bit divider in the overflow test is SAT-hard beyond)')),
-        arena('calloc_overflow', 'h_calloc_overflow', ['carquet_arena_calloc'], timeout=300, tier='thorough',
-              note='UNDECIDED: count*size overflow refusal needs 64-bit mul/div reasoning; SAT times out (600 s), z3/cvc5 abort on the '
+        arena('calloc', 'h_calloc', ['carquet_arena_calloc', 'carquet_arena_alloc'], timeout=300, backend=['sat', 'cadical'],
+              **dict(CALLER, note='domain: every (count, size) whose true product is <= 2^40; wrapping products are c19_arena_calloc_overflow*')),
+        arena('calloc_overflow_pow2', 'h_calloc_overflow', ['carquet_arena_calloc'], timeout=300, backend=['sat', 'cadical'], defines=['CQV_CALLOC_POW2=1'],
+              **dict(CALLER, level='bounded', bound='count a power of two 2^1..2^63, every element size that makes the product wrap')),
+        arena('calloc_overflow', 'h_calloc_overflow', ['carquet_arena_calloc'], timeout=300, tier='thorough', backend=['sat', 'cadical'],
+              note='UNDECIDED: refusal of EVERY wrapping product needs 64-bit mul/div reasoning; SAT (minisat, cadical) times out, z3/cvc5 abort on the '
                    'is_fresh-instrumented program (replace of alloc_aligned). Not a finding.', **CALLER),
         arena('memdup', 'h_memdup', ['carquet_arena_memdup', 'carquet_arena_alloc'], **CALLER),
         arena('strndup', 'h_strndup', ['carquet_arena_strndup'], loop_contracts=True, min_loop_obligations=1, **CALLER),
@@ -118,7 +128,7 @@ JOBS += (
 VALIDATED = set('c19_buffer_' + x for x in (
     'reserve init init_capacity init_wrap init_copy destroy clear resize shrink_to_fit append append_byte append_fill '
     'append_u16_le append_u32_le append_u64_le append_f32_le append_f64_le advance detach swap '
-    'reader_init reader_has reader_read_nz reader_skip reader_read_byte reader_read_u16_le reader_read_u32_le '
+    'reader_init reader_has reader_read reader_read_nz reader_skip reader_read_byte reader_read_u16_le reader_read_u32_le '
     'reader_read_u64_le reader_read_f32_le reader_read_f64_le').split()) | set('c19_arena_' + x for x in (
     'alloc_aligned_n1 alloc_aligned_n2 alloc_n1 memdup strndup strdup init destroy reset save_restore').split())
 NOTES = {
